@@ -58,6 +58,7 @@ def run(repo, rep, tier):
                   'case-insensitively')
     r2b = rep.rule('C13.R2b', 'no uncalled string method in a comparison')
     r3 = rep.rule('C13.R3', 'class filters include subclasses')
+    shadow_copy_rule(repo, rep)
     mp = repo.cls(MAIN, 'MainProvider')
 
     def scope(f):
@@ -429,3 +430,80 @@ def _filter_rules(repo, rep, mp):
                     'a referencing instance is one with a reference '
                     'property whose value is the source instance; its own '
                     'path is returned')
+
+
+def shadow_copy_rule(repo, rep):
+    """C13.R5: a cross-namespace association instance is stored once per
+    participating namespace.  The set of those namespaces must be computed
+    from the very object that is then written / deleted: computing it from
+    another object (e.g. the partial ModifiedInstance instead of the merged
+    instance) updates only some of the copies and traversal from the two
+    namespaces disagrees."""
+    IWP = 'pywbem_mock/_instancewriteprovider.py'
+    cls = repo.cls(IWP, 'InstanceWriteProvider')
+    r5 = rep.rule('C13.R5', 'the namespaces of the shadow copies are computed '
+                  'from the object that is written')
+    finder = 'find_multins_association_ref_namespaces'
+    if finder not in cls.methods:
+        raise AnalysisError('InstanceWriteProvider.%s vanished' % finder)
+    for f in cls.methods.values():
+        for st in walk_no_nested(f.node):
+            if not (isinstance(st, ast.Assign) and
+                    isinstance(st.value, ast.Call) and
+                    (dotted(st.value.func) or '') == 'self.' + finder and
+                    st.value.args and
+                    isinstance(st.targets[0], ast.Name)):
+                continue
+            r5.sites += 1
+            r5.functions.add(f.fq)
+            x = norm(st.value.args[0])
+            v = st.targets[0].id
+            acted = set()
+            ifs = [n for n in walk_no_nested(f.node) if isinstance(n, ast.If)
+                   and any(isinstance(t, ast.Name) and t.id == v
+                           for t in ast.walk(n.test))]
+            for n in ifs:
+                for c in [c for b in n.body + n.orelse for c in ast.walk(b)]:
+                    if not isinstance(c, ast.Call):
+                        continue
+                    d = dotted(c.func) or ''
+                    if d.startswith('self.') and \
+                            'multi_namespace_instance' in d and c.args:
+                        acted.add(norm(c.args[0]))
+                    elif isinstance(c.func, ast.Attribute) and \
+                            c.func.attr == 'copy' and not c.args:
+                        acted.add(norm(c.func.value))
+                    elif isinstance(c.func, ast.Attribute) and \
+                            c.func.attr in ('update', 'create', 'delete') \
+                            and norm(c.func.value).endswith('_store') and \
+                            c.args:
+                        acted.add(norm(c.args[-1]))
+            derived = {x}
+            for _ in range(3):
+                for a in walk_no_nested(f.node):
+                    if isinstance(a, ast.Assign) and \
+                            isinstance(a.targets[0], ast.Name) and \
+                            isinstance(a.value, ast.Call) and (
+                                (isinstance(a.value.func, ast.Attribute) and
+                                 a.value.func.attr == 'copy' and
+                                 norm(a.value.func.value) in derived) or
+                                ((dotted(a.value.func) or '').split('.')[-1]
+                                 in ('copy', 'deepcopy') and a.value.args and
+                                 norm(a.value.args[0]) in derived)):
+                        derived.add(a.targets[0].id)
+            ok = bool(acted) and acted <= derived
+            r5.ob(ok, '%s|%s' % (f.qualname, norm(st, 70)),
+                  {'namespaces_from': x, 'objects_written': sorted(acted)})
+            if not ok:
+                rep.finding(r5, f.qualname, norm(st.value, 80),
+                            'decision-object-differs', IWP, st.lineno,
+                            'the namespaces holding copies of the '
+                            'association instance are computed from %s but '
+                            'the object written / deleted is %s: with a '
+                            'partial ModifiedInstance (or PropertyList) that '
+                            'omits the cross-namespace reference only the '
+                            'local copy is updated and the shadow copy in '
+                            'the other namespace keeps the old reference'
+                            % (x, sorted(acted) or '(not recognised)'))
+    if r5.sites < 3:
+        raise AnalysisError('only %d uses of %s' % (r5.sites, finder))
